@@ -73,6 +73,42 @@ theorem c01_original_problem (A : Mat n m K) (d : SVD n m K) (hs : SVDSpec A d)
   rw [Aeps_eq_of_dropped_zero A d hs eps hz] at this
   exact this
 
+/-- normal equations + trivial kernel ⇒ the minimiser is unique -/
+theorem ls_unique (A : Matrix (Fin n) (Fin m) K) (y : Fin n → K) (c : Fin m → K)
+    (h : Aᵀ *ᵥ (y - A *ᵥ c) = 0) (hinj : ∀ v, A *ᵥ v = 0 → v = 0) (c' : Fin m → K)
+    (hmin : (y - A *ᵥ c') ⬝ᵥ (y - A *ᵥ c') ≤ (y - A *ᵥ c) ⬝ᵥ (y - A *ᵥ c)) : c' = c := by
+  have hsplit : y - A *ᵥ c' = (y - A *ᵥ c) + A *ᵥ (c - c') := by
+    rw [mulVec_sub]; abel_nf
+  have hcross : (A *ᵥ (c - c')) ⬝ᵥ (y - A *ᵥ c) = 0 := by
+    rw [dotProduct_comm, dotProduct_mulVec, ← mulVec_transpose, h, zero_dotProduct]
+  rw [hsplit, add_dotProduct, dotProduct_add, dotProduct_add, hcross,
+    dotProduct_comm _ (A *ᵥ (c - c')), hcross] at hmin
+  have hnn : 0 ≤ (A *ᵥ (c - c')) ⬝ᵥ (A *ᵥ (c - c')) := by
+    unfold dotProduct
+    exact Finset.sum_nonneg (fun i _ => mul_self_nonneg _)
+  have hz : (A *ᵥ (c - c')) ⬝ᵥ (A *ᵥ (c - c')) = 0 := by linarith
+  have := hinj _ (dotProduct_self_eq_zero.mp hz)
+  exact (sub_eq_zero.mp this).symm
+
+/-- **c01_unique**: when `W·Φ` has full column rank (trivial kernel) and no non-zero singular value
+is truncated, the reported column is the *only* minimiser of `‖W(y_j − Φ c)‖²`: any `c'` that fits
+at least as well is equal to it. -/
+theorem c01_unique (A : Mat n m K) (d : SVD n m K) (hs : SVDSpec A d)
+    (Yw : Mat n s K) (eps : K) (he : 0 ≤ eps)
+    (hz : ∀ i : Fin d.r, ¬ eps < d.sigma[i] → d.sigma[i] = 0)
+    (hinj : ∀ v, A.toM *ᵥ v = 0 → v = 0) (j : Fin s) (c' : Fin m → K)
+    (hfit : (colV Yw.toM j - A.toM *ᵥ c') ⬝ᵥ (colV Yw.toM j - A.toM *ᵥ c')
+      ≤ (colV Yw.toM j - A.toM *ᵥ colV (solveTruncVal d Yw eps).toM j) ⬝ᵥ
+        (colV Yw.toM j - A.toM *ᵥ colV (solveTruncVal d Yw eps).toM j)) :
+    c' = colV (solveTruncVal d Yw eps).toM j := by
+  apply ls_unique A.toM _ _ _ hinj c' hfit
+  have hne := normal_eq_val d hs.uorth hs.vorth Yw eps he
+  rw [Aeps_eq_of_dropped_zero A d hs eps hz] at hne
+  have := congrArg (fun M => colV M j) hne
+  simp only [colV_mul, colV_sub] at this
+  rw [this]
+  funext i; simp [colV]
+
 /-- **c01_min_norm**: among all `c'` that fit the truncated problem equally well
 (`A_ε c' = A_ε c_j`) the returned column has the smallest norm. -/
 theorem c01_min_norm (d : SVD n m K) (huo : d.U.toMᵀ * d.U.toM = 1)
